@@ -415,7 +415,7 @@ func (s *ScrewSDF3) Evaluate(p v3.Vec) float64 {
 	// the distance from the 3d z-axis maps to the 2d y-axis
 	p0.Y = math.Sqrt(p.X*p.X + p.Y*p.Y)
 	if s.taper != 0 {
-		p0.Y += p.Z * math.Atan(s.taper)
+		p0.Y += p.Z * math.Tan(s.taper)
 	}
 	// the x/y angle and the z-height map to the 2d x-axis
 	// ie: the position along thread pitch
